@@ -142,6 +142,18 @@ impl Streams {
         (id, channels)
     }
 
+    /// Accept a stream opened by the remote peer.
+    ///
+    /// Returns `None` if the stream is already open, or if its identifier belongs to
+    /// the identifiers of the streams we initiate: these are allocated by [`Streams::open`],
+    /// which expects them to be free.
+    fn accept(&mut self, stream: StreamId, config: ChannelsConfig) -> Option<worker::Channels> {
+        if stream.link() == self.link {
+            return None;
+        }
+        self.register(stream, config)
+    }
+
     /// Register an open stream.
     fn register(&mut self, stream: StreamId, config: ChannelsConfig) -> Option<worker::Channels> {
         let (wire, worker) = worker::Channels::pair(config)
@@ -767,12 +779,12 @@ where
                                 metrics.streams_opened += 1;
                                 metrics.received_fetch_requests += 1;
                                 let reader_limit = self.service.config().limits.fetch_pack_receive;
-                                let Some(channels) = streams.register(
+                                let Some(channels) = streams.accept(
                                     stream,
                                     ChannelsConfig::new(FETCH_TIMEOUT)
                                         .with_reader_limit(reader_limit),
                                 ) else {
-                                    log::warn!(target: "wire", "Peer attempted to open already-open stream stream {stream}");
+                                    log::warn!(target: "wire", "Peer attempted to open already-open or invalid stream {stream}");
                                     continue;
                                 };
 
